@@ -246,7 +246,7 @@ def finish(ctx, module):
         print("KNOWN-FINDING: property=%s %s: %s [%d failing cases, %d signatures]" % (ctx.pid, finding_id, finding["what"], count, len(sigs)))
     replay_paths = []
     for index, (sig, count, items) in enumerate(violations):
-        if index >= 25:
+        if index >= int(os.environ.get("VERIF_MAX_SIGS", "25")):
             print("... %d further distinct failure signatures not written out" % (len(violations) - index))
             break
         failure = min(items, key=lambda item: len(json.dumps(item["case"])))
